@@ -1,10 +1,151 @@
 import Vegeta.Go.Proto
-/-! Driver operations of property C07 (ops are named `c07.<name>`). -/
-namespace Vegeta.Driver.C07
-open Vegeta.Go Vegeta.Go.Proto
+import Vegeta.Model.CodecResult
+import Vegeta.Spec.Layout
+/-! Driver operations of property C07 (ops are named `c07.<name>`).
 
-def handle (_op : String) (args : List String) : Option String :=
-  match _op with
+Result tokens: `attack seq code ts lat bytesOut bytesIn error body method url headers` with
+byte strings in hex, `body` = `n` (nil) or hex, `headers` = `n` (nil) or
+`k  key nvals val…  …` (sorted by key on output). -/
+namespace Vegeta.Driver.C07
+open Vegeta.Go Vegeta.Go.Proto Vegeta.Model.Codec
+
+def optBytes : P (Option Bytes) := do
+  let t ← tok
+  if t == "n" then pure none else
+  match hexDecode t with
+  | some b => pure (some b)
+  | none => failure
+
+def headerP : P (Option Header) := do
+  match (← get) with
+  | "n" :: ts => set ts; pure none
+  | _ =>
+    let h ← listOf (do let k ← bytes; let vs ← listOf bytes; pure (k, vs))
+    pure (some h)
+
+def resultP : P Result := do
+  let attack ← bytes
+  let seq ← nat
+  let code ← nat
+  let ts ← int
+  let lat ← int
+  let bout ← nat
+  let bin ← nat
+  let error ← bytes
+  let body ← optBytes
+  let method ← bytes
+  let url ← bytes
+  let headers ← headerP
+  pure { attack, seq, code, timestamp := ts, latency := lat, bytesOut := bout, bytesIn := bin,
+         error, body, method, url, headers }
+
+def showHeader : Option Header → String
+  | none => "n"
+  | some h =>
+    let hs := sortKV h
+    toString hs.length ++ hs.foldl (fun s kv => s ++ " " ++ hexEncode kv.1 ++ " " ++ showBytesList kv.2) ""
+
+def showOptBytes : Option Bytes → String
+  | none => "n"
+  | some b => hexEncode b
+
+def showResult (r : Result) : String :=
+  hexEncode r.attack ++ " " ++ toString r.seq ++ " " ++ toString r.code ++ " " ++ toString r.timestamp ++ " " ++
+  toString r.latency ++ " " ++ toString r.bytesOut ++ " " ++ toString r.bytesIn ++ " " ++ hexEncode r.error ++ " " ++
+  showOptBytes r.body ++ " " ++ hexEncode r.method ++ " " ++ hexEncode r.url ++ " " ++ showHeader r.headers
+
+def showTerm : Term → String
+  | .eof => "eof"
+  | .err => "err"
+
+def showResults (p : List Result × Term) : String :=
+  toString p.1.length ++ p.1.foldl (fun s r => s ++ " | " ++ showResult r) "" ++ " | " ++ showTerm p.2
+
+def showOut {α} (f : α → String) : Outcome α → String
+  | .ok a => "ok " ++ f a
+  | .error _ => "err"
+  | .panic => "panic"
+
+def showOpt {α} (f : α → String) : Option α → String
+  | some a => "ok " ++ f a
+  | none => "err"
+
+/-- all CSV records of a stream (no field count check) -/
+def csvReadAll : Nat → Bytes → List (List Bytes) × Term
+  | 0, _ => ([], .err)
+  | fuel+1, s =>
+    match readRecord s with
+    | .eof => ([], .eof)
+    | .err => ([], .err)
+    | .record fs rest => let p := csvReadAll fuel rest; (fs :: p.1, p.2)
+
+def handle (op : String) (args : List String) : Option String :=
+  match op with
+  | "c07.fmtint" => do
+    let (i, _) ← int.run args
+    pure ("ok " ++ hexEncode (fmtInt i))
+  | "c07.fmtuint" => do
+    let (n, _) ← nat.run args
+    pure ("ok " ++ hexEncode (fmtNat n))
+  | "c07.parseint" => do
+    let ((bits, s), _) ← (do let b ← nat; let s ← bytes; pure (b, s)).run args
+    pure (showOut (fun (i : Int) => toString i) (parseInt bits s))
+  | "c07.parseuint" => do
+    let ((bits, s), _) ← (do let b ← nat; let s ← bytes; pure (b, s)).run args
+    pure (showOut (fun (i : Nat) => toString i) (parseUint bits s))
+  | "c07.b64enc" => do
+    let (b, _) ← bytes.run args
+    pure ("ok " ++ hexEncode (b64Encode b))
+  | "c07.b64dec" => do
+    let (b, _) ← bytes.run args
+    pure (showOut hexEncode (b64Decode b))
+  | "c07.csvwrite" => do
+    let (fs, _) ← (listOf bytes).run args
+    pure ("ok " ++ hexEncode (writeRecord fs))
+  | "c07.csvread" => do
+    let (b, _) ← bytes.run args
+    let t := normCRLF b
+    let p := csvReadAll (t.length + 1) t
+    pure (toString p.1.length ++ p.1.foldl (fun s fs => s ++ " | " ++ showBytesList fs) "" ++ " | " ++ showTerm p.2)
+  | "c07.hdrwrite" => do
+    let (h, _) ← headerP.run args
+    pure ("ok " ++ showOptBytes (headerBytes h))
+  | "c07.mimeread" => do
+    let (b, _) ← bytes.run args
+    pure (showOut (fun h => showHeader (some h)) (readMIMEHeader b))
+  | "c07.jsonstr" => do
+    let (b, _) ← bytes.run args
+    pure ("ok " ++ hexEncode (jsonString b))
+  | "c07.lexstr" => do
+    let (b, _) ← bytes.run args
+    pure (showOut (fun (p : Bytes × Lex) => hexEncode p.1) (lexString { rest := b }))
+  | "c07.timefmt" => do
+    let ((ns, off), _) ← (do let a ← int; let b ← int; pure (a, b)).run args
+    pure (showOpt hexEncode (timeMarshalJSON ns off))
+  | "c07.timeparse" => do
+    let (b, _) ← bytes.run args
+    pure (showOut (fun (i : Int) => toString i) (timeUnmarshalJSON b))
+  | "c07.enccsv" => do
+    let (r, _) ← resultP.run args
+    pure ("ok " ++ hexEncode (encodeCSV r))
+  | "c07.encjson" => do
+    let ((off, r), _) ← (do let o ← int; let r ← resultP; pure (o, r)).run args
+    pure (showOpt hexEncode (encodeJSON off r))
+  | "c07.deccsv" => do
+    let (b, _) ← bytes.run args
+    pure (showResults (decodeCSV b))
+  | "c07.decjson" => do
+    let (b, _) ← bytes.run args
+    pure (showResults (decodeJSON b))
+  | "c07.speccsv" => do
+    let (b, _) ← bytes.run args
+    pure (showResults (Vegeta.Spec.Layout.specReadCSV b))
+  | "c07.specjson" => do
+    let (b, _) ← bytes.run args
+    pure (showResults (Vegeta.Spec.Layout.specReadJSON b))
+  | "c07.equal" => do
+    let ((a, b), _) ← (do let a ← resultP; let b ← resultP; pure (a, b)).run args
+    pure (if a.equal b then "1" else "0")
   | _ => none
 
 end Vegeta.Driver.C07
